@@ -40,6 +40,24 @@ def ftok(x):
     return None if x is None else repr(float(x))
 
 
+INF = float("inf")
+
+
+def xfrac(x):
+    """exact value of a number or of its string form: a Fraction, or the float +-inf (Python orders a Fraction
+    against +-inf correctly, so min / max / == work on mixed lists); NaN is outside the domain"""
+    if isinstance(x, str):
+        return INF if x == "inf" else -INF if x == "-inf" else Fraction(x)
+    if isinstance(x, float) and x in (INF, -INF):
+        return x
+    return Fraction(x)
+
+
+def xstr(x):
+    v = xfrac(x)
+    return ("inf" if v > 0 else "-inf") if isinstance(v, float) else str(v)
+
+
 # ----------------------------------------------------------------- case -> python objects
 def np_prop(p, n):
     if p["kind"] == "fixed":
@@ -130,7 +148,7 @@ def raw_groups(root):
             entry = {"dtype": dtype_name(q["data"].dtype if "data" in q else v.dtype), "has_data": "data" in q,
                      "has_missing": "missing" in q, "len": int(v.shape[0]), "ndim": len(v.shape)}
             if "data" not in q and np.dtype(v.dtype).kind in "biuf":
-                entry["values"] = [str(Fraction(x)) for x in np.asarray(v[...]).ravel().tolist()]
+                entry["values"] = [xstr(x) for x in np.asarray(v[...]).ravel().tolist()]
                 if "missing" in q:
                     entry["missing"] = [bool(x) for x in q["missing"][...]]
             d[name] = entry
@@ -204,7 +222,7 @@ def run_impl(case, md_obj=None):
             obs["model_props"] = (props_json(npr), props_json(epr))
             obs["n_e"] = (len(G.nodes), len(G.edges))
             rmin, rmax = G.roi
-            obs["roi"] = ([str(Fraction(float(x))) for x in rmin], [str(Fraction(float(x))) for x in rmax])
+            obs["roi"] = ([xstr(float(x)) for x in rmin], [xstr(float(x)) for x in rmax])
             geff.write(G, store, metadata=md, zarr_format=fmt, **list_kwargs(case.get("lists")))
         else:
             raise RuntimeError(entry)
@@ -232,7 +250,7 @@ def props_json(d):
         else:
             w = int(np.prod(v.shape[1:], dtype=np.int64))
             if v.dtype.kind in "biuf":
-                flat = [str(Fraction(x)) for x in v.ravel().tolist()]
+                flat = [xstr(x) for x in v.ravel().tolist()]
             else:
                 flat = ["0"] * v.size
             vals = {"dense": {"dtype": dtype_name(v.dtype), "trail": list(v.shape[1:]),
@@ -248,25 +266,36 @@ def collect_fracs(case, obs):
     for props in obs["model_props"] or ():
         for p in props or ():
             if "dense" in p["values"]:
-                fr += [Fraction(x) for r in p["values"]["dense"]["rows"] for x in r]
+                fr += [xfrac(x) for r in p["values"]["dense"]["rows"] for x in r]
     for a in ((case.get("md") or {}).get("axes") or ()):
-        fr += [Fraction(a[k]) for k in ("min", "max") if a.get(k) is not None]
+        fr += [xfrac(a[k]) for k in ("min", "max") if a.get(k) is not None]
     for side in obs.get("roi", ()):
-        fr += [Fraction(x) for x in side]
+        fr += [xfrac(x) for x in side]
     return fr
 
 
 def scale_of(fracs):
+    """(common power-of-two denominator, sentinel): the model only ORDERS coordinates, so +-inf travel as the
+    integers +-sentinel, strictly beyond every finite scaled value of the case"""
     d = 1
     for f in fracs:
-        d = max(d, f.denominator)
-    return d
+        if not isinstance(f, float):
+            d = max(d, f.denominator)
+    big = 1 + max([abs(int(f * d)) for f in fracs if not isinstance(f, float)] + [0])
+    return (d, big)
 
 
-def sint(x, d):
-    v = Fraction(x) * d
-    assert v.denominator == 1
-    v = int(v)
+def sint(x, sc):
+    d, big = sc if isinstance(sc, tuple) else (sc, None)
+    v = xfrac(x)
+    if isinstance(v, float):
+        assert big is not None, "infinite value without a sentinel"
+        v = big if v > 0 else -big
+    else:
+        v = v * d
+        assert v.denominator == 1
+        v = int(v)
+        assert big is None or abs(v) < big, "finite value beyond the sentinel"
     return v if abs(v) < 2**53 else str(v)
 
 
@@ -426,8 +455,8 @@ def oracle(ck, case, obs):
     for a in attrs.get("axes") or []:
         st = (raw["nodes"] or {}).get(a["name"])
         if nnodes > 0 and st is not None and "values" in st:
-            vals = [Fraction(x) for x in st["values"]]
-            if vals and (a.get("min") is None or Fraction(a["min"]) != min(vals) or Fraction(a["max"]) != max(vals)):
+            vals = [xfrac(x) for x in st["values"]]
+            if vals and (a.get("min") is None or a.get("max") is None or xfrac(a["min"]) != min(vals) or xfrac(a["max"]) != max(vals)):
                 ck.fail("C10:axis-range", f"axis {a['name']}: stored min/max {a.get('min')}/{a.get('max')}, coordinates span "
                         f"{float(min(vals))}..{float(max(vals))}", small, [a.get("min"), a.get("max")], [float(min(vals)), float(max(vals))])
         elif nnodes > 0 and validated:
@@ -464,6 +493,29 @@ def coord_vals(rng, dtype, n, big=False):
     return [rng.randint(-100, 100) for _ in range(n)]
 
 
+def with_infinities(rng, vals, p=0.12):
+    """unbounded coordinates: -inf / +inf at one end, at both ends, or everywhere (NaN stays outside the domain)"""
+    if not vals or rng.random() >= p:
+        return vals
+    vals = list(vals)
+    mode = rng.choice(["lo", "hi", "both", "both", "all+", "all-", "mixed"])
+    idx = list(range(len(vals)))
+    rng.shuffle(idx)
+    if mode == "lo":
+        vals[idx[0]] = -INF
+    elif mode == "hi":
+        vals[idx[0]] = INF
+    elif mode == "both" and len(vals) >= 2:
+        vals[idx[0]], vals[idx[1]] = -INF, INF
+    elif mode == "all+":
+        vals = [INF] * len(vals)
+    elif mode == "all-":
+        vals = [-INF] * len(vals)
+    else:
+        vals = [rng.choice([INF, -INF, v]) for v in vals]
+    return vals
+
+
 def other_prop(rng, name, n, allow_vlen=True, allow_missing=True):
     kind = rng.choice(["fixed", "fixed", "fixed", "vlen"]) if allow_vlen else "fixed"
     missing = [rng.random() < 0.4 for _ in range(n)] if (allow_missing and rng.random() < 0.4) else None
@@ -494,7 +546,10 @@ def gen_graph(rng, n, e, axis_names, big=False, dict_entry=False):
     nprops = []
     for ax in axis_names:
         dt = rng.choice(["float64", "float64", "float32", "int64", "uint8"]) if not dict_entry else rng.choice(["float64", "int64"])
-        nprops.append({"name": ax, "kind": "fixed", "dtype": dt, "trail": [], "values": coord_vals(rng, dt, n, big), "missing": None})
+        cv = coord_vals(rng, dt, n, big)
+        if dt.startswith("float"):
+            cv = with_infinities(rng, cv)
+        nprops.append({"name": ax, "kind": "fixed", "dtype": dt, "trail": [], "values": cv, "missing": None})
     for k in range(rng.randint(0, 3)):
         nprops.append(other_prop(rng, f"p{k}", n, allow_vlen=not dict_entry or n > 0))
     eprops = [other_prop(rng, f"q{k}", len(edges)) for k in range(rng.randint(0, 2))]
@@ -521,14 +576,14 @@ def gen_axis(rng, name, stale=True):
     if rng.random() < 0.6:
         a["unit"] = rng.choice(["micrometer", "pixel", "second", "furlong"])
     if rng.random() < 0.5:
-        a["scale"] = rng.choice([0.5, 2.0, 0.1, 3.25])
+        a["scale"] = rng.choice([0.5, 2.0, 0.1, 3.25, 0.5, 2.0, INF, -INF, 1e300, 5e-324])
         if rng.random() < 0.5:
             a["scaled_unit"] = rng.choice(["nanometer", "meter"])
     if rng.random() < 0.4:
-        a["offset"] = rng.choice([0.0, -1.5, 10.0, 0.3])
+        a["offset"] = rng.choice([0.0, -1.5, 10.0, 0.3, -1.5, 10.0, INF, -INF, -1e300, 2.0**-1074])
     if stale and rng.random() < 0.6:
-        lo = rng.choice([-1000.0, 5.0, 0.0, 99.5])
-        a["min"], a["max"] = lo, lo + rng.choice([0.0, 1.0, 500.0])
+        lo = rng.choice([-1000.0, 5.0, 0.0, 99.5, -1000.0, 5.0, -INF, INF, -1e300])
+        a["min"], a["max"] = lo, (INF if rng.random() < 0.15 else lo + rng.choice([0.0, 1.0, 500.0]))
     return a
 
 
@@ -571,8 +626,8 @@ def gen_md(rng, g, axis_names, directed, want_axes=True):
 
 UNIT_POOL = ["micrometer", "pixel", "second", "millimeter"]          # every axis_* list draws from its own pool,
 SCALED_UNIT_POOL = ["nanometer", "meter", "minute"]                  # so that swapped lists are visible
-SCALE_POOL = [0.5, 2.0, 3.25, 8.0]
-OFFSET_POOL = [-1.5, 4.0, 10.0, 0.75]
+SCALE_POOL = [0.5, 2.0, 3.25, 8.0, 0.5, 2.0, INF, 1e300, 5e-324]
+OFFSET_POOL = [-1.5, 4.0, 10.0, 0.75, -1.5, 4.0, -INF, INF, -1e300]
 TYPE_POOL = ["space", "time", "channel"]
 
 
@@ -719,7 +774,8 @@ def fn_case(rng):
             trail = rng.choice([[], [], [], [2]])
             w = int(np.prod(trail, dtype=np.int64))
             miss = rng.choice([None, None, "some", "all"])
-            props.append({"name": nm, "kind": "fixed", "dtype": dt, "trail": trail, "values": coord_vals(rng, dt, n * w),
+            props.append({"name": nm, "kind": "fixed", "dtype": dt, "trail": trail,
+                          "values": with_infinities(rng, coord_vals(rng, dt, n * w)) if dt.startswith("float") else coord_vals(rng, dt, n * w),
                           "missing": None if miss is None else [True if miss == "all" else rng.random() < 0.5 for _ in range(n)]})
         md = {"directed": True, "nprops": [], "eprops": [], "axes": [gen_axis(rng, nm) for nm in names] if rng.random() < 0.9 else None}
         return {"entry": "minmax", "graph": {"ids": list(range(n)), "edges": [], "nprops": props, "eprops": []}, "md": md}
@@ -767,7 +823,7 @@ def run_fn(case):
 def fn_request(case, obs, version):
     fr = collect_fracs(case, obs)
     for side in case.get("roi") or ():
-        fr += [Fraction(x) for x in side]
+        fr += [xfrac(x) for x in side]
     d = scale_of(fr)
     if case["entry"] == "minmax":
         return {"op": "minmax", "md": md_json(case["md"], d, version), "nprops": scaled_props(obs["model_props"][0], d)}, d
@@ -791,11 +847,11 @@ def judge_fn(ck, case, obs, mo, d):
             p = next(q for q in g["nprops"] if q["name"] == a["name"])
             arr = np_prop(p, len(g["ids"]))
             keep = np.ones(len(g["ids"]), bool) if arr["missing"] is None else ~arr["missing"]
-            vals = [Fraction(x) for x in arr["values"][keep].ravel().tolist()]
+            vals = [xfrac(x) for x in arr["values"][keep].ravel().tolist()]
             if not len(g["ids"]):
                 continue
             span = [float(min(vals)), float(max(vals))] if vals else "no non-missing coordinate (numpy raises ValueError)"
-            if not vals or a.get("min") is None or Fraction(a["min"]) != min(vals) or Fraction(a["max"]) != max(vals):
+            if not vals or a.get("min") is None or a.get("max") is None or xfrac(a["min"]) != min(vals) or xfrac(a["max"]) != max(vals):
                 ck.fail("C10:axis-range", f"compute_and_add_axis_min_max: axis {a['name']} got {a.get('min')}..{a.get('max')}, "
                         f"non-missing coordinates: {span}", case, [a.get("min"), a.get("max")], span)
     if mo is None:
@@ -932,10 +988,11 @@ def judge(ck, case, obs, mo, d, rdef):
 
 
 def run(ck: common.Check):
-    ck.prove(["GeffProps.C10", "GeffProps.C10Links"])
+    ck.prove(["GeffProps.C10", "GeffProps.C10Links", "GeffProps.C10C03Links", "GeffProps.C10Gen"])
     ck.rule = ("a case = (entry point, graph, caller metadata, axis_* lists, flags); entry points: write_arrays (incl. "
                "props=None, unsquish, validation off), write_dicts, geff.write on networkx / rustworkx / spatial-graph; graphs "
-               "of 0..40 nodes with 0-3 axis coordinates (float64/float32/int/uint, incl. -0.0 and 1e300), 0-3 further "
+               "of 0..40 nodes with 0-3 axis coordinates (float64/float32/int/uint, incl. -0.0, 1e300 and -inf/+inf at one end, both "
+               "ends or everywhere; caller-supplied scale/offset/min/max incl. +-inf, 1e300 and subnormals), 0-3 further "
                "properties (8 dtypes, 2-D, var-length, missing masks, float16); caller metadata with absent / stale / "
                "wrong-dtype property entries, unit/name/description, axes with every optional field and stale ranges, extra, "
                "sphere, ellipsoid, track props, related objects, display hints; axis_* lists with and without overrides and a "
@@ -1025,7 +1082,8 @@ def run(ck: common.Check):
         "C03) and by the spatial-graph writer (attribute arrays of the graph) are inputs of the model",
         "C10_props_metadata_exact / C10_axis_range use what an accepting validate_structure guarantees (C04's Conformant: "
         "props group <-> metadata keys, one row per node, axes name 1-D node properties without missing mask)",
-        "coordinates are finite (no NaN); integer coordinates beyond 2^53 are outside the domain (Axis.min is a float)",
+        "coordinates are not NaN (+-inf are inside the domain and travel to the model as order-preserving sentinels); integer "
+        "coordinates beyond 2^53 are outside the domain (Axis.min is a float)",
     ]
 
 
